@@ -24,7 +24,7 @@ def rec(ctx, tag):
 class FloCheck(core.Check):
     """shared by the properties that are checked on the `flo` engine"""
     ENGINE = "flo"
-    WANT = ("E", "S", "V", "Z")
+    WANT = ("E", "S", "V", "K", "Z")
 
     def __init__(self):
         self._cov = {}
@@ -153,7 +153,8 @@ class CHECK(FloCheck):
     N_THOROUGH = 12000
     N_SEARCH = 600
     RULE = ("programs of the interpreted FloScript subset (floeng.gen_program: random frame forests, go/timeout/repeat "
-            "with direct/indirect/boolean/elapsed/recurred/done/status needs, let guards, actions in six contexts, "
+            "with direct/indirect/boolean/elapsed/recurred/done/status needs and `is updated` / `is changed` needs (on "
+            "12 % / 8 % of the transitions and conditional-aux clauses, with and without `in frame`), let guards, actions in six contexts, "
             "put/set/inc/copy, plain and conditional auxes, bids, done; floeng.gen_susp: clock-driven conditional auxes at "
             "several depths, transitions out of suspended outlines, stop/abort at chosen ticks), each run 4-14 ticks on a "
             "dyadic tick; plus the bounded-exhaustive family (1 main framer of 2 frames x <=2 preacts or 3 frames x <=1 "
@@ -164,8 +165,10 @@ class CHECK(FloCheck):
                "recorder deed registered with doing.doify and an end-of-tick snapshot taken when Skedder.run evaluates "
                "`if not ready` (a deque subclass installed as skedder.ready); no hook in /repo",
                "oracle floref.py: second reference interpreter (Python) of the documented semantics",
-               "time is exact: tick period and timeouts are multiples of 1/8 s"]
-    PARTIAL = ["verbs outside the interpreted subset (server, logger, rear/raze, fiats/slaves, clones, marker needs, "
+               "time is exact: tick period and timeouts are multiples of 1/8 s",
+               "marks: after every tick the stamp of every marked share and stamp/used/data of every mark are read from "
+               "share.marks of the real store and compared (record K)"]
+    PARTIAL = ["verbs outside the interpreted subset (server, logger, rear/raze, fiats/slaves, clones, `by <marker>` keys, "
                "do-deeds other than the recorder, `bid … at period`) are not interpreted",
                "actions that raise are not modelled; RecursionError of cyclic auxiliaries is Err.depth and is not generated"]
     TECHNIQUE = ("translation-validation style differential testing of the real Builder/Skedder against a Lean 4 reference "
